@@ -32,6 +32,12 @@ fn body(len: usize, salt: usize) -> Vec<u8> {
 /// a drawn stream: READY with k extra properties, messages of 1..N frames incl. empty and > 8 KiB
 /// frames, READY commands between messages
 fn draw_stream(ctx: &Ctx, kind: Kind, short: bool) -> Vec<u8> {
+    draw_stream_x(ctx, kind, short, false)
+}
+
+/// `big`: one frame of the stream is of a size at which buffers change hands (64 KiB, 1 MiB, ...)
+/// and more messages follow it
+fn draw_stream_x(ctx: &Ctx, kind: Kind, short: bool, big: bool) -> Vec<u8> {
     let mut s = rc::greeting_default();
     let k = ctx.plan(3) as usize;
     let mut props: Vec<(Vec<u8>, Vec<u8>)> = vec![(b"Socket-Type".to_vec(), kind.peers()[0].as_bytes().to_vec())];
@@ -50,7 +56,8 @@ fn draw_stream(ctx: &Ctx, kind: Kind, short: bool) -> Vec<u8> {
     }
     let pr: Vec<(&[u8], &[u8])> = props.iter().map(|(a, b)| (&a[..], &b[..])).collect();
     s.extend(rc::ready(&pr));
-    let nm = if short { 1 + ctx.plan(2) } else { 1 + ctx.plan(5) } as usize;
+    let nm = if short { 1 + ctx.plan(2) } else { 1 + ctx.plan(5) } as usize + if big { 2 } else { 0 };
+    let big_at = if big { (ctx.plan(2) as usize, ctx.plan(2) as usize) } else { (usize::MAX, 0) };
     for m in 0..nm {
         if ctx.plan(5) == 0 {
             s.extend(rc::ready_for(kind.peers()[0], None));
@@ -61,7 +68,9 @@ fn draw_stream(ctx: &Ctx, kind: Kind, short: bool) -> Vec<u8> {
             frames.push(vec![]);
         }
         for f in 0..nf {
-            let len = if short {
+            let len = if (m, f) == (big_at.0, big_at.1.min(nf - 1)) {
+                ctx.plan_pick(&[1usize << 16, (1 << 16) + 7, (1 << 20) - 1, 1 << 20, (1 << 20) + 1, 2 << 20, (1 << 20) + 8192])
+            } else if short {
                 ctx.plan(4) as usize
             } else {
                 match ctx.plan(8) {
@@ -314,13 +323,15 @@ fn byte_at_a_time(ctx: &mut Ctx) {
 fn random_partitions(ctx: &mut Ctx) {
     let kind = kind_of(ctx.idx);
     let exact = ctx.idx % 3 != 0;
+    // one stream in 24 carries a frame of 64 KiB .. 2 MiB with further messages behind it
+    let big = ctx.idx % 24 >= 22;
     if exact {
         world::plain(ctx);
     } else {
         // inexact: the library's own read chunking, yields and latency add to the partition
-        world::swarm(ctx, SwarmOpts::default());
+        world::swarm(ctx, SwarmOpts { tiny_chunks: !big, ..SwarmOpts::default() });
     }
-    let s = draw_stream(ctx, kind, false);
+    let s = draw_stream_x(ctx, kind, false, big);
     let n = s.len();
     let mut cuts: Vec<usize> = Vec::new();
     match ctx.plan(3) {
